@@ -360,9 +360,9 @@ def run_cases(ctx, n_models, n_states, seed_offset=0, gen_opts=None, legs=True):
 
 
 def correspond(ctx):
-  n_models = ctx.budget(14, 120)
+  n_models = ctx.budget(12, 120)
   cases, dis, fails, hist = run_cases(ctx, n_models, 2)
-  n_lat, dis_lat = run_lattice(ctx, ctx.budget(6, 40))
+  n_lat, dis_lat = run_lattice(ctx, ctx.budget(4, 40))
   dis += dis_lat
   # one representative per key
   seen, uniq = set(), []
